@@ -47,7 +47,7 @@ fn ek(e: &str) -> String {
 
 pub fn run(a: &Args) -> ShardOut {
     let mut total = ShardOut::default();
-    let (histories, rounds) = if a.thorough { (30, 40) } else { (6, 18) };
+    let (histories, rounds) = if a.thorough { (60, 40) } else { (16, 18) };
     for h in 0..histories {
         if let Some(only) = super::only_history() {
             if only != h {
